@@ -49,6 +49,23 @@ CHECKS = {
             "of its sub-queries run alone on the same searcher; scores must not depend on limit or filter.",
             "Field-length byte approximation treated as specification; tolerances 1e-9 (composition) and 2e-6 (reference scorer, float32 term statistics); DisjunctionMax tiebreak != 0 excluded (parameter unused by whoosh).",
             "DESIGN.md section 2 C09"),
+    "C11": ("exploration",
+            "model-based property testing (Hypothesis): generated cursor programs on generated matcher trees vs the entry list of a pristine next()-stepped copy",
+            "Matcher trees are obtained from generated queries over generated multi-block, multi-segment corpora (scored / boolean / needs_current contexts, per segment and "
+            "top-level) and by direct composition of ListMatchers under every public combinator (incl. ArrayUnion with tiny parts, Multi, Inverse, Filter). A generated program of "
+            "next / skip_to (targets below, at, between, above ids) / skip_to_quality(0) / replace(0) / copy / reset / all_ids runs on a fresh matcher; after every step id, score "
+            "and spans must equal the modelled entry, copies must stay independent, ids strictly increase, all_ids equals stepping.",
+            "Entry payloads come from a pristine copy stepped with next() (path-independence is the property). reset() only on never-replaced matchers; no calls on exhausted matchers.",
+            "DESIGN.md section 2 C11"),
+    "C12": ("exploration",
+            "property-based testing (Hypothesis): inequality oracle (bound >= score) at generated positions and thresholds on generated matcher trees",
+            "On the C11 matcher population (BM25F with generated B/K1/per-field B, TF_IDF, Frequency, MultiWeighting; direct ListMatcher trees) every tree that claims "
+            "quality support is checked at every position a generated program reaches: block_quality() >= current score (and, for term matchers, >= every score up to "
+            "block_max_id()), max_quality() >= every remaining score; for generated thresholds q (0, negative, an entry's score -/+ 1e-6, above the maximum) skip_to_quality(q) "
+            "must not pass an entry scoring > q and replace(q) must keep every entry scoring > q with its score. One recorded finding (WrappingMatcher.replace boost) is "
+            "attributed only when the same case without boosts > 1 passes.",
+            "Scores taken from a pristine copy (C11). Weightings that no longer claim quality support after the recorded fixes (PL2, DFree, ReverseWeighting) are outside the statement.",
+            "DESIGN.md section 2 C12"),
     "C15": ("exploration",
             "property-based testing (Hypothesis): metamorphic relation docs(r(q)) == docs(q) over generated query trees and indexes",
             "Generated query trees over all public query types (incl. spans, Sequence, NullQuery, empty compounds, overlapping ranges) are rewritten by "
